@@ -70,7 +70,9 @@ def build_vdriver():
     if not os.path.exists(lock_dst):
         shutil.copy(lock_src, lock_dst)
     t0 = time.time()
-    p = sh(["cargo", "build", "--release", "--offline", "--features", "hooks", "--target-dir", HARNESS_TARGET], cwd=HARNESS)
+    # VERIF_REPO (a private copy of the repository, e.g. while /repo is being patched by a seed run) replaces the path dependency
+    override = ["--config", f'paths = ["{os.path.join(REPO, "bindgen")}"]'] if REPO != "/repo" else []
+    p = sh(["cargo", "build", "--release", "--offline", "--features", "hooks", "--target-dir", HARNESS_TARGET] + override, cwd=HARNESS)
     if p.returncode != 0:
         sys.stdout.write(p.stderr.decode(errors="replace")[-4000:])
         die_machinery("vdriver (harness linked against /repo/bindgen, hooks on) failed to build")
